@@ -146,6 +146,20 @@ class IterVal:
         self.items = list(items)
 
 
+class OneShotIter:
+    """an iterator object (e.g. itertools.chain): yields the elements of `src` once, then nothing"""
+
+    def __init__(self, src):
+        self.src = src
+        self.consumed = False
+
+    def take(self):
+        if self.consumed:
+            return VList([])
+        self.consumed = True
+        return self.src
+
+
 class VDict:
     def __init__(self, d=None):
         self.d = dict(d or {})
